@@ -50,6 +50,7 @@ type pscript struct {
 	flushFirst bool // Flush before the first Write (as streaming handlers and proxies do)
 	accel      bool // the handler answers with X-Accel-Redirect to an internal location (and, as proxies do, may flush)
 	hints      bool // an informational 103 Early Hints response before the final one
+	bodyOn304  bool // the handler writes a body although the status allows none (204, 304): net/http refuses it, nothing of it is sent
 	again      int  // a superfluous WriteHeader call, which net/http ignores: 1 straight after the first, 2 after the first Write
 	copyMode   int  // 0 Write; 1 io.Copy from a plain Reader (ReadFrom where offered); 2 io.Copy from a WriterTo; 3 io.WriteString
 	panicAt    int  // -1: never; k: before write k (0 = before anything is written); len(writes): after all writes
@@ -66,6 +67,7 @@ type sreq struct {
 	target    string // request target sent instead of path?query (C19: absolute-form, authority-form)
 	archiveOf string // "zip" | "tar": the directory listing is asked for as an archive
 	cond      bool   // (static requests) carries a Range header or a precondition
+	ae2       string // a second Accept-Encoding line
 	json      bool   // the upload is labelled application/json (its body may be logged)
 	lim       int    // body limit applying to the path (0 = none)
 	hdrs      [][2]string
@@ -244,6 +246,10 @@ func (r *siteRig) probe(label string, next httpserver.Handler, w http.ResponseWr
 		c.Probe("x-accel-redirect-answered")
 		w.Header().Set("X-Accel-Redirect", "/secret/"+id)
 		w.Header().Set("Content-Type", "text/html")
+		if len(id)%2 == 0 {
+			// (backends announce the length of what they send along; it has nothing to do with the internal answer)
+			w.Header().Set("Content-Length", fmt.Sprint(len("body-the-client-must-never-see")))
+		}
 		w.WriteHeader(200)
 		if sc.flushFirst {
 			park("accel-flush")
@@ -889,7 +895,16 @@ func (r *siteRig) genReq(id, site string) *sreq {
 	}
 	q.ae = []string{"", "gzip", "gzip, deflate, br", "br", "zstd, gzip", "identity", "deflate", "gzip;q=0.5", "br, zstd", "zstd",
 		"gzip;q=0", "br;q=0, gzip", "identity, gzip;q=0.0", "zstd;q=0, br;q=0, gzip;q=0.000", "notgzip", "gzip2, br",
-		"gzip;q=0, *", "br, gzip;q=0.0, *;q=0.1", "*"}[st.Draw(19)]
+		"gzip;q=0, *", "br, gzip;q=0.0, *;q=0.1", "*",
+		"gzip; q=0", "deflate, gzip ; q=0.0, br", "gzip;\tq=0", "x-gzip; Q=0, gzip; Q=0", "gzip; q=0.5"}[st.Draw(24)]
+	if pick(8) {
+		// the field on two lines (a list may be split over several lines): what counts is all of it
+		if strings.Contains(strings.ToLower(q.ae), "gzip") || strings.Contains(q.ae, "*") {
+			q.ae2 = []string{"br", "zstd", "identity"}[st.Draw(3)] // (nothing that would contradict the first line about gzip)
+		} else {
+			q.ae2 = []string{"gzip", "br", "gzip"}[st.Draw(3)]
+		}
+	}
 	if sc.mode == "static" {
 		if pick(10) {
 			q.method = "HEAD"
@@ -970,7 +985,12 @@ func (r *siteRig) genReq(id, site string) *sreq {
 		}
 		sc.setCL = pick(40)
 		sc.retErr = pick(12)
-		if sc.status == 204 || sc.status == 304 {
+		if (sc.status == 204 || sc.status == 304) && r.mode == "C20" && pick(30) {
+			sc.bodyOn304 = true
+			sc.writes, sc.flush = [][]byte{[]byte("a body nobody will see")}, []bool{false}
+			sc.explicit = true
+			sc.setCL = false
+		} else if sc.status == 204 || sc.status == 304 {
 			sc.writes, sc.flush = nil, nil
 			sc.explicit = true
 			sc.setCL = false
@@ -1086,6 +1106,9 @@ func (r *siteRig) addConn(rs []*sreq) {
 		}
 		if q.ae != "" {
 			fmt.Fprintf(&b, "Accept-Encoding: %s\r\n", q.ae)
+		}
+		if q.ae2 != "" {
+			fmt.Fprintf(&b, "Accept-Encoding: %s\r\n", q.ae2)
 		}
 		if q.auth {
 			b.WriteString("Authorization: Basic Ym9iOmh1bnRlcjI=\r\n")
@@ -1523,6 +1546,17 @@ func sgn(x int) int {
 
 // offersCoding: the Accept-Encoding header names the coding with a weight other
 // than zero; a coding that is not named falls under "*" if that is present.
+// aeAll: the Accept-Encoding field as a whole (its lines joined as the list they are).
+func (q *sreq) aeAll() string {
+	if q.ae2 == "" {
+		return q.ae
+	}
+	if q.ae == "" {
+		return q.ae2
+	}
+	return q.ae + ", " + q.ae2
+}
+
 func offersCoding(ae, coding string) bool {
 	named := false
 	for _, a := range strings.Split(ae, ",") {
@@ -1578,7 +1612,7 @@ func (r *siteRig) judgeCompression(q *sreq, resp *sim.Resp, dec []byte, derr err
 	if cl := resp.Header.Get("Content-Length"); cl != "" && !bodyless && cl != fmt.Sprint(len(resp.Body)) {
 		c.Violate("C18/content-length-wrong", sig, "request %s: Content-Length %s but %d entity bytes on the wire", q.id, cl, len(resp.Body))
 	}
-	offersGzip := offersCoding(q.ae, "gzip")
+	offersGzip := offersCoding(q.aeAll(), "gzip")
 	twCE := ""
 	if tw != nil {
 		twCE = tw.Header.Get("Content-Encoding")
@@ -1587,7 +1621,7 @@ func (r *siteRig) judgeCompression(q *sreq, resp *sim.Resp, dec []byte, derr err
 		c.Violate("C18/gzip-not-offered", sig, "request %s (%s): the client did not offer gzip (Accept-Encoding %q) but the response is gzip-coded", q.id, q.path, q.ae)
 	}
 	if q.script.mode == "static" && ce != "" {
-		if !offersCoding(q.ae, ce) {
+		if !offersCoding(q.aeAll(), ce) {
 			c.Violate("C18/coding-not-offered", fmt.Sprintf("ce=%q", ce), "request %s (%s, siblings %v): the client offered Accept-Encoding %q but the response is %q-coded", q.id, q.path, r.siblings[q.path], q.ae, ce)
 		}
 		c.Probe("precompressed-sibling-served")
